@@ -16,5 +16,5 @@ cargo kani --target-dir ../work/target-base -Z unstable-options -Z stubbing --ex
 # native replay twins (dev + release)
 cargo build --offline --bin replay --target-dir ../work/target-native > ../work/setup-native.log 2>&1 || { tail -30 ../work/setup-native.log; exit 1; }
 cargo build --offline --release --bin replay --target-dir ../work/target-native >> ../work/setup-native.log 2>&1 || { tail -30 ../work/setup-native.log; exit 1; }
-cargo build --offline --release --features native-tv --bin tvserde --target-dir ../work/target-native >> ../work/setup-native.log 2>&1 || { tail -30 ../work/setup-native.log; exit 1; }
+(cd ../tvserde && cargo build --offline --release --target-dir ../work/target-native) >> ../work/setup-native.log 2>&1 || { tail -30 ../work/setup-native.log; exit 1; }
 echo "setup ok"
